@@ -28,8 +28,10 @@ def listener(name, stamp, port=None, tokens=None, inline=False, chains=None):
     """chains: optional list of (port|None, tokens|None, typed_struct, router_first) for a multi-chain (inbound) listener"""
     if chains is None:
         chains = [(port, tokens, False, False)]
-    fcs = [C("Build_fchain_pb", None if p is None else Some(p), L([hcm(stamp + i, t, inline and i == 0, ts, rf)]))
-           for i, (p, t, ts, rf) in enumerate(chains)]
+    # a chain may name (5th element) the index of an earlier chain whose filters it repeats byte for byte
+    fcs = [C("Build_fchain_pb", None if ch[0] is None else Some(ch[0]),
+             L([hcm(stamp + (ch[4] if len(ch) > 4 else i), ch[1], inline and i == 0, ch[2], ch[3])]))
+           for i, ch in enumerate(chains)]
     return C("Build_listener_pb", name, L(fcs), None)
 
 
@@ -41,6 +43,12 @@ def inbound_chains(r):
     if r.random() < 0.7:
         chains.append((None, r.choice([None, 0, 50, 9]), r.random() < 0.4, r.random() < 0.5))
     r.shuffle(chains)
+    if chains and r.random() < 0.3:
+        # the same HttpConnectionManager (same bucket, same route table: identical bytes) under a second port
+        i = r.randrange(len(chains))
+        p, t, ts, rf = chains[i][:4]
+        other = r.choice([q for q in (80, 8888, 9090, 15006) if q != p])
+        chains.append((other, t, ts, rf, i))
     return chains or [(None, None, False, False)]
 
 
